@@ -18,3 +18,142 @@ package json
 //@   assigns nothing
 //@   loop 1: invariant old(cursor) <= cursor && cursor < len(src) && wsRun(src, old(cursor), cursor)
 //@   loop 1: decreases len(src) - cursor
+
+// ---------------------------------------------------------------- entry points (C11, C12)
+// Every value of DecodeOptionFunc may read and write the Flags of the option block it is given, nothing else.
+//@ functype DecodeOptionFunc(opt)
+//@   requires opt != nil
+//@   reads decoder.Option.Flags
+//@   assigns decoder.Option.Flags
+
+//@ func DecodeFieldPriorityFirstWin$1(opt)
+//@   props C11 C12
+//@   implements DecodeOptionFunc
+
+//@ func noescape(p) (r)
+//@   props C11 C12 C06
+//@   ensures r == p
+//@   assigns nothing
+
+//@ func validateType(typ, p) (err)
+//@   props C11 C12
+//@   trusted reflection-only check of the destination type
+//@   assigns nothing
+
+//@ spec privateCopy(src, data) := len(src) == len(data) + 1 && src[len(data)] == 0 && forall k :: 0 <= k && k < len(data) ==> src[k] == data[k]
+
+// C12: the decoder works on a copy allocated in this call; C11: nothing the decoder is given
+// depends on what the pooled context held before (poolfree); C06: the sentinel precondition.
+//@ func unmarshal(data, v, optFuncs) (err)
+//@   props C11 C12 C06
+//@   callassert[C12] Decode: freshAlloc(src) && ctx.Buf == src && privateCopy(src, data)
+//@   callassert[C11] Decode: poolfree(ctx.Buf) && poolfree(ctx.Option.Flags) && poolfree(ctx.Option.Context)
+//@   assigns all
+//@   loop 1: invariant -1 <= rangeindex && rangeindex < len(optFuncs) && ctx.Buf == src && privateCopy(src, data) && ctx.Option != nil && poolfree(ctx.Option.Flags)
+
+//@ func unmarshalNoEscape(data, v, optFuncs) (err)
+//@   props C11 C12 C06
+//@   callassert[C12] Decode: freshAlloc(src) && ctx.Buf == src && privateCopy(src, data)
+//@   callassert[C11] Decode: poolfree(ctx.Buf) && poolfree(ctx.Option.Flags) && poolfree(ctx.Option.Context)
+//@   assigns all
+//@   loop 1: invariant -1 <= rangeindex && rangeindex < len(optFuncs) && ctx.Buf == src && privateCopy(src, data) && ctx.Option != nil && poolfree(ctx.Option.Flags)
+
+//@ func unmarshalContext(ctx, data, v, optFuncs) (err)
+//@   props C11 C12 C06
+//@   callassert[C12] Decode: freshAlloc(src) && rctx.Buf == src && privateCopy(src, data)
+//@   callassert[C11] Decode: poolfree(rctx.Buf) && poolfree(rctx.Option.Flags) && poolfree(rctx.Option.Context) && rctx.Option.Context == ctx
+//@   assigns all
+//@   loop 1: invariant -1 <= rangeindex && rangeindex < len(optFuncs) && rctx.Buf == src && privateCopy(src, data) && rctx.Option != nil && rctx.Option.Context == ctx && poolfree(rctx.Option.Flags)
+
+//@ func extractFromPath(path, data, optFuncs) (paths, err)
+//@   props C11 C12 C06 C20
+//@   requires path != nil && path.path != nil
+//@   callassert[C12] DecodePath: freshAlloc(src) && ctx.Buf == src && privateCopy(src, data)
+//@   callassert[C11] DecodePath: poolfree(ctx.Buf) && poolfree(ctx.Option.Flags) && poolfree(ctx.Option.Context) && ctx.Option.Path == path.path
+//@   assigns all
+//@   loop 1: invariant -1 <= rangeindex && rangeindex < len(optFuncs) && ctx.Buf == src && privateCopy(src, data) && ctx.Option != nil && poolfree(ctx.Option.Flags) && ctx.Option.Path == path.path
+
+// ---------------------------------------------------------------- encoder entry points (C11, C12, C03)
+//@ functype EncodeOptionFunc(opt)
+//@   requires opt != nil
+//@   reads encoder.Option.Flag
+//@   assigns encoder.Option.Flag, encoder.Option.ColorScheme, encoder.Option.DebugOut, encoder.Option.DebugDOTOut
+
+//@ func UnorderedMap$1(opt)
+//@   props C11
+//@   implements EncodeOptionFunc
+//@ func DisableHTMLEscape$1(opt)
+//@   props C11
+//@   implements EncodeOptionFunc
+//@ func DisableNormalizeUTF8$1(opt)
+//@   props C11
+//@   implements EncodeOptionFunc
+//@ func Debug$1(opt)
+//@   props C11
+//@   implements EncodeOptionFunc
+//@ func DebugWith$1(opt)
+//@   props C11
+//@   implements EncodeOptionFunc
+//@ func DebugDOT$1(opt)
+//@   props C11
+//@   implements EncodeOptionFunc
+//@ func Colorize$1(opt)
+//@   props C11
+//@   implements EncodeOptionFunc
+
+// The interpreters leave a trailing ',' (',' + newline when indenting) that the entry points trim (assumed of Run).
+//@ func encode(ctx, v) (r, err)
+//@   props C11 C12 C03
+//@   trusted runs the compiled program; assumed to return a buffer that ends with the separator the entry points trim
+//@   requires ctx != nil && ctx.Option != nil
+//@   ensures err == nil ==> len(r) >= 1 && r[len(r)-1] == ','
+//@   assigns all
+//@ func encodeNoEscape(ctx, v) (r, err)
+//@   props C11 C12 C03
+//@   trusted see encode
+//@   requires ctx != nil && ctx.Option != nil
+//@   ensures err == nil ==> len(r) >= 1 && r[len(r)-1] == ','
+//@   assigns all
+//@ func encodeIndent(ctx, v, prefix, indent) (r, err)
+//@   props C11 C12 C03
+//@   trusted see encode
+//@   requires ctx != nil && ctx.Option != nil
+//@   ensures err == nil ==> len(r) >= 2 && r[len(r)-2] == ',' && r[len(r)-1] == 10
+//@   assigns all
+
+// C11: the option block handed to the interpreter does not depend on what the pooled context held.
+// C12: the result is a slice allocated in this call. C03: exactly the trailer is trimmed.
+//@ func marshal(v, optFuncs) (res, err)
+//@   props C11 C12 C03
+//@   callassert[C11] encode: poolfree(ctx.Option.Flag) && poolfree(ctx.Option.Context)
+//@   ghost tl := len(buf)
+//@   ghost tp := ptrOf(buf)
+//@   ensures err == nil ==> freshAlloc(res) && len(res) == tl && forall k :: 0 <= k && k < tl ==> res[k] == M(tp + k)
+//@   assigns all
+//@   loop 1: invariant -1 <= rangeindex && rangeindex < len(optFuncs) && ctx.Option != nil && poolfree(ctx.Option.Flag)
+
+//@ func marshalNoEscape(v) (res, err)
+//@   props C11 C12 C03
+//@   callassert[C11] encodeNoEscape: poolfree(ctx.Option.Flag) && poolfree(ctx.Option.Context)
+//@   ghost tl := len(buf)
+//@   ghost tp := ptrOf(buf)
+//@   ensures err == nil ==> freshAlloc(res) && len(res) == tl && forall k :: 0 <= k && k < tl ==> res[k] == M(tp + k)
+//@   assigns all
+
+//@ func marshalContext(ctx, v, optFuncs) (res, err)
+//@   props C11 C12 C03
+//@   callassert[C11] encode: poolfree(rctx.Option.Flag) && poolfree(rctx.Option.Context) && rctx.Option.Context == ctx
+//@   ghost tl := len(buf)
+//@   ghost tp := ptrOf(buf)
+//@   ensures err == nil ==> freshAlloc(res) && len(res) == tl && forall k :: 0 <= k && k < tl ==> res[k] == M(tp + k)
+//@   assigns all
+//@   loop 1: invariant -1 <= rangeindex && rangeindex < len(optFuncs) && rctx.Option != nil && poolfree(rctx.Option.Flag) && rctx.Option.Context == ctx
+
+//@ func marshalIndent(v, prefix, indent, optFuncs) (res, err)
+//@   props C11 C12 C03
+//@   callassert[C11] encodeIndent: poolfree(ctx.Option.Flag) && poolfree(ctx.Option.Context)
+//@   ghost tl := len(buf)
+//@   ghost tp := ptrOf(buf)
+//@   ensures err == nil ==> freshAlloc(res) && len(res) == tl && forall k :: 0 <= k && k < tl ==> res[k] == M(tp + k)
+//@   assigns all
+//@   loop 1: invariant -1 <= rangeindex && rangeindex < len(optFuncs) && ctx.Option != nil && poolfree(ctx.Option.Flag)
